@@ -703,7 +703,7 @@ Definition classification : list (string * cls) := [
   (* fmt/display.rs:169 merge_attrs  --  super :: ContainerAttributes :: merge_attrs ( Spanning :: new ( prev . common , prev_span  *)
   ("fmt/display.rs|merge_attrs|recursion|b818a072", Unreachable r_not_self_call);
   (* fmt/mod.rs:187 transparent_call  --  format_ident ! ( '{name}' ) *)
-  ("fmt/mod.rs|transparent_call|format_ident|340055a5", ProbeOnly);
+  ("fmt/mod.rs|transparent_call|format_ident|340055a5", Discharged "C18_transparent_ident_valid");
   (* fmt/mod.rs:204 transparent_call  --  format_ident ! ( '{trait_name}' ) *)
   ("fmt/mod.rs|transparent_call|format_ident|67cd3068", Unreachable r_ident_const);
   (* fmt/mod.rs:227 transparent_call_on_fields  --  parse_quote ! { & ( # expr ) } *)
@@ -1443,3 +1443,43 @@ Section Walk.
               end) 0 cs)
     end.
 End Walk.
+
+(* ------------------------------------------------------------------------------------------ *)
+(** ** C.5 fmt/mod.rs:187 `format_ident!("{name}")` in FmtAttribute::transparent_call: the name comes from
+    fmt/parsing.rs `identifier`; `Ident::new` panics unless the name is `(XID_Start | '_') XID_Continue*`.
+    The predicates `identifier` uses are looked up in the source (Gen.identifier_predicates): when they are not the
+    XID ones, the parser is modelled as accepting any characters. *)
+Definition ident_preds_are_xid : bool :=
+  match identifier_predicates with
+  | [a; b; c; d] =>
+      String.eqb a "check_char XID :: is_xid_start" && String.eqb b "check_char XID :: is_xid_continue" &&
+      String.eqb c "char '_'" && String.eqb d "check_char XID :: is_xid_continue"
+  | _ => false
+  end.
+
+Section IdentName.
+  (* the Unicode tables (unicode-xid for the parser, unicode-ident for proc_macro2; their agreement on every scalar
+     value is measured on every run: assumption A-IDENT) and the code point of '_' *)
+  Variable xid_start xid_continue : nat -> bool.
+  Variable underscore : nat.
+
+  (* fmt/parsing.rs:521-532 identifier on a whole name:  XID_Start XID_Continue*  |  '_' XID_Continue+ *)
+  Definition parser_accepts_name (name : list nat) : bool :=
+    if ident_preds_are_xid then
+      match name with
+      | [] => false
+      | c :: r => (xid_start c && forallb xid_continue r) ||
+                  ((c =? underscore) && match r with [] => false | _ => forallb xid_continue r end)
+      end
+    else match name with [] => false | _ => true end.       (* unknown predicates: anything non-empty *)
+
+  (* proc_macro2 fallback.rs ident_ok (what Ident::new checks) *)
+  Definition ident_new_ok (name : list nat) : bool :=
+    match name with
+    | [] => false
+    | c :: r => (xid_start c || (c =? underscore)) && forallb xid_continue r
+    end.
+
+  Definition transparent_ident_ops (name : list nat) : list op :=
+    if parser_accepts_name name then [OUnwrap (ident_new_ok name)] else [].
+End IdentName.
